@@ -919,3 +919,474 @@ func checkC04Round5(c *Ctx) {
 		r.Unk("C04.wide-wrap", "strutil.LineSpan", "-", "anchor not found")
 	}
 }
+
+// ---------------------------------------------------------------------------
+// Round-5 seeding: rules written for changes the first run missed.
+
+// mustPassAllReturns: every path from the entry of f to a return passes an instruction satisfying via.
+func mustPassAllReturns(f *ssa.Function, via func(ssa.Instruction) bool) ssa.Instruction {
+	return pathAvoiding(f, nil, func(x ssa.Instruction) bool { _, isRet := x.(*ssa.Return); return isRet }, via)
+}
+
+// checkRound5Small registers the small structural rules of round 5 for property id.
+func checkRound5Small(c *Ctx, id string) {
+	p, r := c.P, c.R
+	switch id {
+	case "C05":
+		// dispatchCharacter hands back the bytes it read on every exit
+		r.Rule("C05.character-keys-returned", "K3", "every exit of (*keymap.Engine).dispatchCharacter returns, as the keys to push back or mark as matched, a value built from the bytes it was given (`read`, possibly grown by the continuation bytes popped): an exit that returns something else loses the first bytes of a character split across two reads", 2)
+		if DC := p.Func("(*keymap.Engine).dispatchCharacter"); DC != nil && len(DC.Params) >= 2 {
+			r.Fn(fnName(DC))
+			read := DC.Params[1]
+			n := 0
+			eachInstr(DC, func(in ssa.Instruction) {
+				ret, ok := in.(*ssa.Return)
+				if !ok || len(ret.Results) != 3 {
+					return
+				}
+				n++
+				okAll := true
+				for _, v := range mayValues(ret.Results[2]) {
+					if !dependsOn(v, func(x ssa.Value) bool { return x == ssa.Value(read) }) {
+						okAll = false
+					}
+				}
+				r.Check(okAll, "C05.character-keys-returned", fmt.Sprintf("(*keymap.Engine).dispatchCharacter:return#%d", n), p.IPos(in), "returns the bytes read", "this exit returns keys that are not the bytes read (a never-assigned result): the bytes of the unfinished character are neither pushed back nor marked, and are lost when the rest arrives in the next read")
+			})
+		} else {
+			r.Unk("C05.character-keys-returned", "(*keymap.Engine).dispatchCharacter", "-", "anchor not found")
+		}
+		// ConvertMeta converts every key: the input is returned as it is only when empty
+		r.Rule("C05.convert-every-key", "K4", "strutil.ConvertMeta returns its argument unconverted only when it is empty: the conversion of a read applies to every Meta character in it, wherever it stands — a shortcut on the first key leaves a Meta character that is not first in its read unconverted, so the same bytes mean different things depending on how they are chunked", 1)
+		if CM := p.Func("strutil.ConvertMeta"); CM != nil && len(CM.Params) == 1 {
+			r.Fn(fnName(CM))
+			keys := CM.Params[0]
+			bf := blockFacts(CM)
+			n := 0
+			eachInstr(CM, func(in ssa.Instruction) {
+				ret, ok := in.(*ssa.Return)
+				if !ok || len(ret.Results) != 1 {
+					return
+				}
+				direct := false
+				for _, v := range mayValues(ret.Results[0]) {
+					if stripConv(v) == ssa.Value(keys) {
+						direct = true
+					}
+				}
+				if !direct {
+					return
+				}
+				n++
+				// the only facts on this path: len(keys) == 0
+				onlyEmpty := true
+				for fc := range factsAt(bf, in) {
+					rel, ok := relOf(fc.Cond, fc.Val)
+					isLen := false
+					if ok {
+						if cl, isCall := rel.X.(*ssa.Call); isCall {
+							if b, isB := cl.Call.Value.(*ssa.Builtin); isB && b.Name() == "len" && cl.Call.Args[0] == ssa.Value(keys) {
+								if k, isK := constInt(rel.Y); isK && k == 0 && rel.Op == token.EQL {
+									isLen = true
+								}
+							}
+						}
+					}
+					if !isLen {
+						onlyEmpty = false
+					}
+				}
+				r.Check(onlyEmpty && len(factsAt(bf, in)) > 0, "C05.convert-every-key", fmt.Sprintf("strutil.ConvertMeta:unconverted-return#%d", n), p.IPos(in), "only for an empty argument", "the argument is returned unconverted under a condition other than `len(keys) == 0` (a test of its first key): a Meta character later in the same read is not converted")
+			})
+			if n == 0 {
+				r.OK("C05.convert-every-key", "strutil.ConvertMeta:no-unconverted-return", p.Pos(CM.Pos()), "no exit returns the argument unconverted")
+			}
+		} else {
+			r.Unk("C05.convert-every-key", "strutil.ConvertMeta", "-", "anchor not found")
+		}
+	case "C03":
+		// the pushed-back key of a shorter bind does not depend on the bind having a command (a macro has none)
+		r.Rule("C03.ruled-out-key-macro", "K4", "in MatchMain, the case that gives back the key which ruled out a longer sequence is not conditioned on the looked-up command being non-nil: a bind to a macro has an action and no command, and its ruling-out key belongs to the next sequence all the same", 1)
+		if MM := p.Func("keymap.MatchMain"); MM != nil {
+			r.Fn(fnName(MM))
+			bf := blockFacts(MM)
+			n := 0
+			for _, mk := range callsTo(MM, false, "core.MatchedKeys") {
+				com := mk.Common()
+				// the form with a rest: MatchedKeys(keys, matched, rest...) where rest is a non-empty variadic slice built from read[len(matched):]
+				if len(com.Args) < 3 {
+					continue
+				}
+				if _, isSlice := com.Args[2].(*ssa.Slice); !isSlice {
+					continue
+				}
+				n++
+				bad := false
+				for fc := range factsAt(bf, mk.(ssa.Instruction)) {
+					v, _, isNil := nilCmp(fc.Cond)
+					if !isNil {
+						continue
+					}
+					if _, isSig := v.Type().Underlying().(*types.Signature); isSig {
+						bad = true
+					}
+				}
+				r.Check(!bad, "C03.ruled-out-key-macro", fmt.Sprintf("keymap.MatchMain:pushback#%d", n), p.IPos(mk.(ssa.Instruction)), "not conditioned on the command", "the ruling-out key is given back only when the shorter bind has a command: when it is a macro (action, no command) the key is dropped with the matched ones, and the sequence typed after the macro's loses its first key")
+			}
+			if n == 0 {
+				r.Unk("C03.ruled-out-key-macro", "keymap.MatchMain:pushback", p.Pos(MM.Pos()), "no MatchedKeys call with a rest found: anchor changed")
+			}
+		} else {
+			r.Unk("C03.ruled-out-key-macro", "keymap.MatchMain", "-", "anchor not found")
+		}
+	case "C06":
+		// the search mode is left after the match was inserted
+		r.Rule("C06.search-stop-last", "K1", "in a function of the root package that inserts a history match into the search buffer (History.InsertMatch) and leaves the non-incremental search mode (NonIsearchStop), the stop — which clamps the cursor for vi command mode on the way out — does not run before the insertion: called first, it clamps the cursor of the line as it was, and the inserted match leaves the cursor past the last character", 2)
+		n := 0
+		for _, f := range p.RepoFuncs {
+			if len(f.Blocks) == 0 || f.Pkg == nil || f.Pkg.Pkg.Path() != modPath {
+				continue
+			}
+			ins := callsTo(f, false, "(*history.Sources).InsertMatch")
+			if len(ins) == 0 {
+				continue
+			}
+			for i, st := range callsTo(f, false, "(*completion.Engine).NonIsearchStop") {
+				if _, isDefer := st.(*ssa.Defer); isDefer {
+					n++
+					r.OK("C06.search-stop-last", fmt.Sprintf("%s:stop#%d", fnName(f), i), p.IPos(st.(ssa.Instruction)), "deferred: runs after the insertion")
+					continue
+				}
+				n++
+				r.Fn(fnName(f))
+				w := pathAvoiding(f, st.(ssa.Instruction), func(x ssa.Instruction) bool { return isCallTo(x, "(*history.Sources).InsertMatch") }, func(ssa.Instruction) bool { return false })
+				r.Check(w == nil, "C06.search-stop-last", fmt.Sprintf("%s:stop#%d", fnName(f), i), p.IPos(st.(ssa.Instruction)), "no insertion follows the stop", "History.InsertMatch can run after NonIsearchStop: the vi-command cursor clamp made on leaving the search sees the line before the match is inserted, and the cursor is left after the last character of the inserted line")
+			}
+		}
+		if n == 0 {
+			r.Unk("C06.search-stop-last", "NonIsearchStop-with-InsertMatch", "-", "no function pairs the two calls: anchor changed")
+		}
+		// the partial autosuggest insertion of the word movements happens at the end of the line only
+		r.Rule("C06.autosuggest-at-end", "K4", "insertAutosuggestPartial — called by forward-word / vi-forward-word, which are movements — writes the line only where the cursor is known to be on or after the last character (the `cpos < Len()-1` exit was not taken): anywhere else the movement would insert a piece of the suggestion in the middle of the text", 1)
+		if IA := p.Func("(*readline.Shell).insertAutosuggestPartial"); IA != nil {
+			r.Fn(fnName(IA))
+			bf := blockFacts(IA)
+			n := 0
+			for i, w := range callsTo(IA, false, "(*core.Line).Insert", "(*core.Line).InsertBetween", "(*core.Line).Set") {
+				n++
+				atEnd := false
+				for fc := range factsAt(bf, w.(ssa.Instruction)) {
+					rel, ok := relOf(fc.Cond, fc.Val)
+					if !ok || (rel.Op != token.GEQ && rel.Op != token.GTR) {
+						continue
+					}
+					lhsPos := dependsOn(rel.X, func(v ssa.Value) bool { cl, ok := v.(*ssa.Call); return ok && calleeName(cl) == "(*core.Cursor).Pos" })
+					rhsLen := dependsOn(rel.Y, func(v ssa.Value) bool { cl, ok := v.(*ssa.Call); return ok && calleeName(cl) == "(*core.Line).Len" })
+					// cpos >= Len()-1  (negation of cpos < Len()-1); a `>` would exclude the last character itself
+					if lhsPos && rhsLen && rel.Op == token.GEQ {
+						atEnd = true
+					}
+				}
+				r.Check(atEnd, "C06.autosuggest-at-end", fmt.Sprintf("(*readline.Shell).insertAutosuggestPartial:write#%d", i), p.IPos(w.(ssa.Instruction)), "under cpos >= Len()-1", "the insertion is not under `cpos >= Len()-1`: with the cursor inside the line, forward-word inserts a slice of the suggested history line into the text")
+			}
+			if n == 0 {
+				r.Unk("C06.autosuggest-at-end", "(*readline.Shell).insertAutosuggestPartial:writes", p.Pos(IA.Pos()), "no line write found: anchor changed")
+			}
+		} else {
+			r.Unk("C06.autosuggest-at-end", "(*readline.Shell).insertAutosuggestPartial", "-", "anchor not found")
+		}
+	case "C20":
+		r.Rule("C20.reading-before-read", "K1", "(*Keys).ReadKey announces itself (stores reading = true) before it can read the terminal or wait for the main loop's keys, on every path: GetCursorPos, run by a resize or a Printf from another goroutine, reads the terminal itself unless waiting or reading is set — two readers on one terminal lose a key or park forever on the cursor channel", 1)
+		if RK := p.Func("(*core.Keys).ReadKey"); RK != nil {
+			r.Fn(fnName(RK))
+			isSet := func(in ssa.Instruction) bool {
+				st, ok := isFieldStore(in, "core.Keys", "reading")
+				if !ok {
+					return false
+				}
+				b, isB := constBool(st.Val)
+				return isB && b
+			}
+			isRead := func(in ssa.Instruction) bool {
+				if isCallTo(in, "(*core.Keys).readInputFiltered") {
+					return true
+				}
+				if u, ok := in.(*ssa.UnOp); ok && u.Op == token.ARROW {
+					return true
+				}
+				return false
+			}
+			w := pathAvoiding(RK, nil, isRead, isSet)
+			pos := p.Pos(RK.Pos())
+			if w != nil {
+				pos = p.IPos(w)
+			}
+			r.Check(w == nil, "C20.reading-before-read", "(*core.Keys).ReadKey:reads", pos, "reading is set before every read", "a path reaches a terminal read (or the wait for the main loop's keys) without having set reading: a cursor query from the resize or Printf goroutine then reads the terminal at the same time")
+		} else {
+			r.Unk("C20.reading-before-read", "(*core.Keys).ReadKey", "-", "anchor not found")
+		}
+	case "C14":
+		r.Rule("C14.select-sets-keymap", "K1", "(*completion.Engine).Select enters the menu-select keymap (adjustSelectKeymap) on every path that goes on to move the selector: with `autocomplete` on Tab reaches Select directly, and without the keymap the next Tab or Ctrl-C is dispatched as an ordinary key — the candidate becomes part of the line and Ctrl-C ends Readline", 1)
+		if SE := p.Func("(*completion.Engine).Select"); SE != nil {
+			r.Fn(fnName(SE))
+			w := pathAvoiding(SE, nil, func(x ssa.Instruction) bool { return isCallTo(x, "(*completion.group).moveSelector") }, func(x ssa.Instruction) bool { return isCallTo(x, "(*completion.Engine).adjustSelectKeymap") })
+			pos := p.Pos(SE.Pos())
+			if w != nil {
+				pos = p.IPos(w)
+			}
+			r.Check(w == nil, "C14.select-sets-keymap", "(*completion.Engine).Select:moveSelector", pos, "the keymap is set before the selector moves", "the selector can move (a candidate gets inserted) without the menu-select keymap having been entered")
+		} else {
+			r.Unk("C14.select-sets-keymap", "(*completion.Engine).Select", "-", "anchor not found")
+		}
+	case "C04":
+		r.Rule("C04.column-comes-down", "K1", "displayMultilinePrompts moves the cursor up to the first row of the buffer before calling (*ui.Prompt).MultilineColumnPrint, which comes back down while printing the column: every path through MultilineColumnPrint prints something (the rows to go down), also when no column is configured — otherwise the cursor stays on the first row and what follows overwrites the prompt and erases the other lines", 1)
+		if MC := p.Func("(*ui.Prompt).MultilineColumnPrint"); MC != nil {
+			r.Fn(fnName(MC))
+			w := mustPassAllReturns(MC, func(x ssa.Instruction) bool { return isCallTo(x, "fmt.Print", "fmt.Printf", "fmt.Println") })
+			pos := p.Pos(MC.Pos())
+			if w != nil {
+				pos = p.IPos(w)
+			}
+			r.Check(w == nil, "C04.column-comes-down", "(*ui.Prompt).MultilineColumnPrint:exits", pos, "every path prints", "a path through MultilineColumnPrint prints nothing (no column option set): the cursor, moved up to the first row by the caller, is not brought back to the last line — a buffer of three lines or more loses all its lines but the first on the default configuration")
+		} else {
+			r.Unk("C04.column-comes-down", "(*ui.Prompt).MultilineColumnPrint", "-", "anchor not found")
+		}
+		r.Rule("C04.comp-rows-fresh", "K1", "completion.Display stores the number of rows it used (Engine.usedY) on every path to its exit, including the exits that print nothing: the display climbs back by that count, and a count left over from the previous list puts the cursor above the input line", 1)
+		if DI := p.Func("completion.Display"); DI != nil {
+			r.Fn(fnName(DI))
+			w := mustPassAllReturns(DI, func(x ssa.Instruction) bool { _, ok := isFieldStore(x, "completion.Engine", "usedY"); return ok })
+			pos := p.Pos(DI.Pos())
+			if w != nil {
+				pos = p.IPos(w)
+			}
+			r.Check(w == nil, "C04.comp-rows-fresh", "completion.Display:exits", pos, "usedY is stored on every path", "an exit of Display (nothing to show, or display skipped) leaves usedY at the row count of the previous list: Refresh then moves the cursor up that many rows too many")
+		} else {
+			r.Unk("C04.comp-rows-fresh", "completion.Display", "-", "anchor not found")
+		}
+	case "C01":
+		r.Rule("C01.undo-pos-clamped", "K4", "every store that steps lineHistory.pos up (Undo) is followed by the test `pos > len(items)` whose taken branch stores len(items): Redo indexes items[len(items)-pos] and relies on pos never exceeding the number of items", 1)
+		n := 0
+		for _, f := range p.RepoFuncs {
+			eachInstr(f, func(in ssa.Instruction) {
+				st, ok := isFieldStore(in, "history.lineHistory", "pos")
+				if !ok {
+					return
+				}
+				bo, isBo := st.Val.(*ssa.BinOp)
+				if !isBo || bo.Op != token.ADD || !isFieldLoad(stripConv(bo.X), "history.lineHistory", "pos") {
+					return
+				}
+				n++
+				r.Fn(fnName(f))
+				clamped := false
+				eachInstr(f, func(x ssa.Instruction) {
+					iff, ok := x.(*ssa.If)
+					if !ok || !instrDominates(in, x) {
+						return
+					}
+					rel, ok := relOf(iff.Cond, true)
+					if !ok || rel.Op != token.GTR || !isFieldLoad(stripConv(rel.X), "history.lineHistory", "pos") {
+						return
+					}
+					cl, isCall := rel.Y.(*ssa.Call)
+					if !isCall {
+						return
+					}
+					if b, isB := cl.Call.Value.(*ssa.Builtin); !isB || b.Name() != "len" || !isFieldLoad(stripConv(cl.Call.Args[0]), "history.lineHistory", "items") {
+						return
+					}
+					for _, y := range iff.Block().Succs[0].Instrs {
+						if s2, ok := isFieldStore(y, "history.lineHistory", "pos"); ok {
+							if c2, isCall := s2.Val.(*ssa.Call); isCall {
+								if b, isB := c2.Call.Value.(*ssa.Builtin); isB && b.Name() == "len" {
+									clamped = true
+								}
+							}
+						}
+					}
+				})
+				r.Check(clamped, "C01.undo-pos-clamped", fmt.Sprintf("%s:pos++#%d", fnName(f), n), p.IPos(in), "clamped to len(items)", "the undo position is stepped up without being clamped to the number of items: after more undos than there are states, redo indexes items[len-pos] with a negative index and panics")
+			})
+		}
+		if n == 0 {
+			r.Unk("C01.undo-pos-clamped", "lineHistory.pos++", "-", "no increment of lineHistory.pos found: anchor changed")
+		}
+	}
+}
+
+// defaultBindTables extracts the default keymap tables of internal/keymap (package-level
+// map literals keyed by unescape("<notation>")): table name -> notation -> action.
+func defaultBindTables(p *Prog) map[string]map[string]string {
+	out := map[string]map[string]string{}
+	init := p.Func("keymap.init")
+	if init == nil {
+		return out
+	}
+	tableOf := map[ssa.Value]string{}
+	eachInstr(init, func(in ssa.Instruction) {
+		if st, ok := in.(*ssa.Store); ok {
+			if g, isG := st.Addr.(*ssa.Global); isG {
+				if _, isMap := st.Val.(*ssa.MakeMap); isMap {
+					tableOf[st.Val] = g.Name()
+				}
+			}
+		}
+	})
+	eachInstr(init, func(in ssa.Instruction) {
+		mu, ok := in.(*ssa.MapUpdate)
+		if !ok {
+			return
+		}
+		name, known := tableOf[mu.Map]
+		if !known {
+			return
+		}
+		kc, ok := mu.Key.(*ssa.Call)
+		if !ok || len(kc.Call.Args) != 1 {
+			return
+		}
+		notation, ok := constString(kc.Call.Args[0])
+		if !ok {
+			return
+		}
+		ld, ok := mu.Value.(*ssa.UnOp)
+		if !ok || ld.Op != token.MUL {
+			return
+		}
+		action := ""
+		for _, ref := range referrersOf(ld.X) {
+			fa, ok := ref.(*ssa.FieldAddr)
+			if !ok || fieldName(ld.X.Type(), fa.Field) != "Action" {
+				continue
+			}
+			for _, r2 := range referrersOf(fa) {
+				if st, ok := r2.(*ssa.Store); ok {
+					if s, isS := constString(st.Val); isS {
+						action = s
+					}
+				}
+			}
+		}
+		if out[name] == nil {
+			out[name] = map[string]string{}
+		}
+		out[name][notation] = action
+	})
+	return out
+}
+
+// checkPrefixBoundPop: C18.pushed-back-argument. A command bound, in a default
+// keymap, to a sequence that longer binds of the same keymap extend runs when
+// the next key rules those out, and the dispatcher gives that key back at the
+// front of the typed-key buffer. If the command takes an argument key, it is
+// that one — Keys.Pop serves the typed-key buffer first; ReadKey serves the keys
+// fed by a running macro first and, on replay, takes the macro's next key.
+func checkPrefixBoundPop(c *Ctx, rule string) {
+	p, r := c.P, c.R
+	r.Rule(rule, "K5", "a command that a default keymap binds to a sequence which longer binds of the same keymap extend (vi-select-inside on `i` / `a` next to `iw`, `aw`, …) and that takes an argument key takes it with (*Keys).Pop — the dispatcher pushed the ruling-out key back in front of the typed keys, where Pop looks first — and not with ReadKey, which serves the keys fed by a macro first: on replay the macro's next key would be taken as the argument and the real one dispatched as a command", 1)
+	tables := defaultBindTables(p)
+	if len(tables) < 5 {
+		r.Unk(rule, "keymap.init:tables", "-", fmt.Sprintf("only %d default bind tables extracted: anchor changed", len(tables)))
+		return
+	}
+	reg := p.Registry()
+	type hit struct{ table, notation, action string }
+	var hits []hit
+	for tn, tbl := range tables {
+		for n, a := range tbl {
+			if a == "" {
+				continue
+			}
+			for n2 := range tbl {
+				if n2 != n && strings.HasPrefix(n2, n) {
+					hits = append(hits, hit{tn, n, a})
+					break
+				}
+			}
+		}
+	}
+	sort.Slice(hits, func(i, j int) bool {
+		if hits[i].action != hits[j].action {
+			return hits[i].action < hits[j].action
+		}
+		return hits[i].table+hits[i].notation < hits[j].table+hits[j].notation
+	})
+	seen := map[string]bool{}
+	n := 0
+	for _, h := range hits {
+		if seen[h.action] {
+			continue
+		}
+		seen[h.action] = true
+		f := reg.Cmds[h.action]
+		if f == nil {
+			continue // a bind to a name no command carries: nothing runs
+		}
+		reads := callsTo(f, false, "(*core.Keys).ReadKey")
+		pops := callsTo(f, false, "(*core.Keys).Pop")
+		if len(reads)+len(pops) == 0 {
+			continue // takes no argument key
+		}
+		n++
+		r.Fn(fnName(f))
+		key := fmt.Sprintf("%s(%s %q)", h.action, h.table, h.notation)
+		if len(reads) > 0 {
+			r.Bad(rule, key, p.IPos(reads[0].(ssa.Instruction)), fmt.Sprintf("%s is bound to %q in %s, which longer binds extend, and reads its argument with ReadKey: when a macro replays it, ReadKey serves the macro's next key before the key the dispatcher pushed back", h.action, h.notation, h.table))
+			continue
+		}
+		r.OK(rule, key, p.IPos(pops[0].(ssa.Instruction)), "takes its argument with Keys.Pop")
+	}
+	if n == 0 {
+		r.Unk(rule, "prefix-bound commands with an argument key", "-", "none found in the default tables: anchor changed")
+	}
+}
+
+// checkRangeKeepsEmpty: C17.empty-range-kept. Line.checkRange normalises a
+// range; -1 as the end means "no end given", which Line.Cut reads as "to the end
+// of the line". A valid result must not turn a given end into -1.
+func checkRangeKeepsEmpty(c *Ctx, rule string) {
+	p, r := c.P, c.R
+	r.Rule(rule, "K3", "(*core.Line).checkRange never answers a valid range (third result true) whose end is the constant -1 unless the end it was given is what is returned: -1 means \"no end\", which Line.Cut reads as \"to the end of the line\" and InsertBetween as \"insert at bpos\" — an empty range normalised to -1 makes a delete with a motion that cannot move (dh at column 0) remove the rest of the line while the yank copies nothing", 1)
+	CR := p.Func("(*core.Line).checkRange")
+	if CR == nil || len(CR.Params) < 3 {
+		r.Unk(rule, "(*core.Line).checkRange", "-", "anchor not found")
+		return
+	}
+	r.Fn(fnName(CR))
+	var expand func(v ssa.Value, seen map[ssa.Value]bool) []ssa.Value
+	expand = func(v ssa.Value, seen map[ssa.Value]bool) []ssa.Value {
+		if seen[v] {
+			return nil
+		}
+		seen[v] = true
+		if ph, ok := v.(*ssa.Phi); ok {
+			var out []ssa.Value
+			for _, e := range ph.Edges {
+				out = append(out, expand(e, seen)...)
+			}
+			return out
+		}
+		return []ssa.Value{v}
+	}
+	n := 0
+	eachInstr(CR, func(in ssa.Instruction) {
+		ret, ok := in.(*ssa.Return)
+		if !ok || len(ret.Results) != 3 {
+			return
+		}
+		if b, isB := constBool(ret.Results[2]); !isB || !b {
+			return
+		}
+		n++
+		bad := false
+		for _, v := range expand(ret.Results[1], map[ssa.Value]bool{}) {
+			if k, isK := constInt(v); isK && k == -1 {
+				bad = true
+			}
+		}
+		r.Check(!bad, rule, fmt.Sprintf("(*core.Line).checkRange:valid-return#%d", n), p.IPos(in), "the end of a valid range is never the constant -1", "a valid range can come back with the end replaced by -1: Cut then removes everything up to the end of the line for a range that was empty")
+	})
+	if n == 0 {
+		r.Unk(rule, "(*core.Line).checkRange:valid-returns", p.Pos(CR.Pos()), "no return with a true third result: anchor changed")
+	}
+}
